@@ -307,15 +307,15 @@ def _run(chk, quick, rng, pool):
         jobs.append(('regression', ('fixed', list(DESIGN_STRINGS), h, modes[i % 2 * 2])))
     # (a1) one history per transition of the bounded reference model
     if quick:
-        gens = [(2, True, '{1, 2, 3, 4}', 2, 2, ALL_OPS, 1)]     # last field: execute every k-th history
+        gens = [(2, True, '{1, 2, 3, 4}', 2, 2, ALL_OPS, 2)]     # last field: execute every k-th of the longest histories
     else:
-        gens = [(2, True, '{1, 2, 3, 4}', 2, 3, ALL_OPS, 3), (3, False, '{1, 2}', 1, 3, '{"add", "core", "update"}', 1)]
+        gens = [(2, True, '{1, 2, 3, 4}', 2, 3, ALL_OPS, 4), (3, False, '{1, 2}', 1, 3, '{"add", "core", "update"}', 1)]
     per_transition = 0
     for g in gens:
         hs, res = tlc_histories(fix, *g[:6])
         nall = len(hs)
-        # every history of at most 2 calls, every k-th of the longer ones
-        hs = [h for i, h in enumerate(hs) if len(h) <= 2 or i % g[6] == 0]
+        # every history shorter than MaxOps, every k-th of those of length MaxOps
+        hs = [h for i, h in enumerate(hs) if len(h) < g[4] or i % g[6] == 0]
         strings = design_strings(g[0], g[1])
         for i, h in enumerate(hs):
             has_reopen = any(o['op'] == 'reopen' for o in h)
@@ -326,15 +326,15 @@ def _run(chk, quick, rng, pool):
             {'NU': g[0], 'BadLast': g[1], 'PSet': g[2], 'MaxBatch': g[3], 'MaxOps': g[4], 'OpsOn': g[5],
              'transitions': res['distinct'] - 1, 'histories_generated': nall, 'histories_executed': len(hs)})
     # (a2) simulation: more URLs, 30 calls, depth-5 histories with 3 URLs
-    sims = [(5, True, '{1, 2, 3, 4}', 2, 30, ALL_OPS, 10 if quick else 60),
-            (3, True, '{1, 2, 3, 4}', 2, 5, ALL_OPS, 30 if quick else 300)]
+    sims = [(5, True, '{1, 2, 3, 4}', 2, 30, ALL_OPS, 8 if quick else 40),
+            (3, True, '{1, 2, 3, 4}', 2, 5, ALL_OPS, 24 if quick else 300)]
     for j, g in enumerate([] if light else sims):
         hs, res = tlc_histories(fix, *g[:6], simulate=g[6], seed=chk.seed + 11 + j)
         strings = design_strings(g[0], g[1])
         for i, h in enumerate(hs):
             jobs.append(('tlc-simulation', ('fixed', strings, h, modes[1 + 2 * (i % 2)] if i % 3 else modes[i % 4])))
     # (b) seeded random histories over arbitrary strings
-    nrand = 48 if quick else 200
+    nrand = 40 if quick else 160
     for i in range(nrand):
         jobs.append(('random', ('random', rng.randrange(2 ** 30), rng.randrange(50, 201), modes[i % 4])))
 
@@ -359,7 +359,7 @@ def _run(chk, quick, rng, pool):
                                 for d in designs]}
 
     # ---------------- 3. TLC validation of every recorded trace
-    mv, sv, stats = validate(traces, fix, 700 if quick else 2500)
+    mv, sv, stats = validate(traces, fix, 1000 if quick else 2500)
     for st in stats:
         chk.trace_stats(st)
     timing['validated'] = round(time.time() - t0, 1)
